@@ -34,10 +34,12 @@ import (
 	"math"
 	"os"
 	"path/filepath"
+	"reflect"
 	"strconv"
 	"strings"
 	"time"
 	"unicode/utf8"
+	"unsafe"
 
 	"mellium.im/xmpp/styling"
 
@@ -109,6 +111,10 @@ type decRes struct {
 	got   []int
 	panic string
 	hung  bool
+	// every split call the real Decoder's scanner made, judged against the contract
+	calls    int
+	badCalls []string
+	hooked   bool
 }
 
 func endName(err error) string {
@@ -145,6 +151,22 @@ func decode(doc []byte, s sched) decRes {
 			}
 		}()
 		d := styling.NewDecoder(cr)
+		pos := 0
+		res.hooked = hookDecoderSplit(d, func(orig bufio.SplitFunc) bufio.SplitFunc {
+			return func(data []byte, atEOF bool) (int, []byte, error) {
+				adv, tok, err := orig(data, atEOF)
+				res.calls++
+				if pos+len(data) > len(doc) || !bytes.Equal(data, doc[pos:pos+len(data)]) {
+					res.badCalls = append(res.badCalls, fmt.Sprintf("call %d: the window %d+%d is not the unconsumed input", res.calls, pos, len(data)))
+				} else if _, bad := judge(data, adv, tok, err); bad != "" && len(res.badCalls) < 4 {
+					res.badCalls = append(res.badCalls, fmt.Sprintf("call %d (%d bytes at offset %d, atEOF=%v): %s", res.calls, len(data), pos, atEOF, bad))
+				}
+				if adv > 0 && adv <= len(data) {
+					pos += adv
+				}
+				return adv, tok, err
+			}
+		})
 		for d.Next() {
 			t := d.Token().Copy()
 			res.evs = append(res.evs, event{data: t.Data, style: d.Style(), quote: d.Quote(), info: t.Info})
@@ -205,6 +227,58 @@ func (c call) res() string {
 	return strconv.Itoa(c.adv)
 }
 
+// judge holds one result of a split function against the bufio.SplitFunc contract as the
+// property reads it (every consumed byte is handed out in a token): no error; 0 <= advance
+// <= len(data); advance == 0 implies a nil token ("more"); advance > 0 implies a non-nil
+// token equal to data[:advance].  It does not look at what the model predicts.
+func judge(data []byte, adv int, tok []byte, err error) (more bool, bad string) {
+	switch {
+	case err != nil:
+		return false, "error " + err.Error()
+	case adv < 0 || adv > len(data):
+		return false, fmt.Sprintf("advance %d outside 0..%d", adv, len(data))
+	case adv == 0 && tok == nil:
+		return true, ""
+	case adv == 0:
+		return false, fmt.Sprintf("token %q without advance", tok)
+	case tok == nil:
+		return false, fmt.Sprintf("advance %d with a nil token: %q is handed out in no token", adv, data[:adv])
+	case !bytes.Equal(tok, data[:adv]):
+		return false, fmt.Sprintf("token %q is not data[:%d] = %q", tok, adv, data[:adv])
+	}
+	return false, ""
+}
+
+// hookDecoderSplit replaces the split function of the bufio.Scanner inside a real
+// styling.Decoder (unexported fields, reached with reflect+unsafe) by wrap(original), so
+// that every split call the real Decoder makes can be judged.  It reports false when the
+// layout is not the expected one (field `s *bufio.Scanner`, its field `split`).
+func hookDecoderSplit(d *styling.Decoder, wrap func(bufio.SplitFunc) bufio.SplitFunc) (ok bool) {
+	defer func() {
+		if recover() != nil {
+			ok = false
+		}
+	}()
+	fs := reflect.ValueOf(d).Elem().FieldByName("s")
+	if !fs.IsValid() || fs.Kind() != reflect.Ptr || fs.IsNil() {
+		return false
+	}
+	sc := reflect.NewAt(fs.Type(), unsafe.Pointer(fs.UnsafeAddr())).Elem().Elem()
+	if sc.Type() != reflect.TypeOf(bufio.Scanner{}) {
+		return false
+	}
+	fsp := sc.FieldByName("split")
+	if !fsp.IsValid() || fsp.Type() != reflect.TypeOf(bufio.SplitFunc(nil)) {
+		return false
+	}
+	p := (*bufio.SplitFunc)(unsafe.Pointer(fsp.UnsafeAddr()))
+	if *p == nil {
+		return false
+	}
+	*p = wrap(*p)
+	return true
+}
+
 // oneCall calls the split function once, recovering panics, and checks the
 // SplitFunc result shape.
 func oneCall(f bufio.SplitFunc, data []byte, eof bool) (c call) {
@@ -218,18 +292,7 @@ func oneCall(f bufio.SplitFunc, data []byte, eof bool) (c call) {
 	in := append([]byte(nil), data...)
 	adv, tok, err := f(in, eof)
 	c.adv = adv
-	switch {
-	case err != nil:
-		c.bad = "error " + err.Error()
-	case adv == 0 && tok == nil:
-		c.more = true
-	case adv < 0 || adv > len(data):
-		c.bad = fmt.Sprintf("advance %d outside 0..%d", adv, len(data))
-	case !bytes.Equal(tok, data[:adv]):
-		c.bad = fmt.Sprintf("token %q is not data[:%d] = %q", tok, adv, data[:adv])
-	case adv == 0:
-		c.bad = "empty token without progress"
-	}
+	c.more, c.bad = judge(data, adv, tok, err)
 	return c
 }
 
@@ -263,23 +326,18 @@ func split(doc []byte, s sched, limit int) splitRes {
 		}
 		adv, tok, err := f(data, atEOF)
 		c.adv = adv
-		switch {
-		case err != nil:
-			c.bad = "error " + err.Error()
-		case adv == 0 && tok == nil:
-			c.more = true
-		case adv < 0 || adv > len(data):
-			c.bad = fmt.Sprintf("advance %d outside 0..%d", adv, len(data))
-		case !bytes.Equal(tok, data[:adv]):
-			c.bad = fmt.Sprintf("token %q is not data[:%d]", tok, adv)
+		var bad string
+		c.more, bad = judge(data, adv, tok, err)
+		if c.bad == "" {
+			c.bad = bad
 		}
 		pending = append(pending, c)
-		if tok != nil {
+		if !c.more {
 			res.calls = append(res.calls, pending...)
 			pending = nil
-			if adv > 0 {
-				pos += adv
-			}
+		}
+		if adv > 0 && adv <= len(data) {
+			pos += adv
 		}
 		return adv, tok, err
 	})
@@ -362,8 +420,10 @@ func divergenceKey(ref, got []event) string {
 }
 
 type ctx struct {
-	r    *common.Run
-	hung bool
+	r        *common.Run
+	hung     bool
+	unhooked int // decodes whose scanner's split function could not be wrapped
+	judged   int // split calls of real Decoders held against the contract
 }
 
 func decLine(doc []byte, got []int, s sched) string {
@@ -383,6 +443,13 @@ func (c *ctx) clauses(doc []byte, s sched, res decRes, line string) {
 		r.Fail("no-panic", "decoder", lines, "panic: "+res.panic)
 		return
 	}
+	for _, b := range res.badCalls {
+		r.Fail("prefix", "decoder-split-result", lines, b)
+	}
+	if !res.hooked {
+		c.unhooked++
+	}
+	c.judged += res.calls
 	var cat []byte
 	for _, e := range res.evs {
 		cat = append(cat, e.data...)
@@ -597,7 +664,8 @@ func compositions(n int) [][]int {
 
 var symbols = []string{"*", "_", "`", "~", ">", " ", "\n", "a", "b", "*", "_", "`", ">", " ", "\n",
 	"```", "```\n", "> ", ">> ", "```go\n", "\t", "\u00a0", "\u0085", "\u1680", "\u2003", "\u3000", "\u2028", "\u205f",
-	"\xe2", "\xe2\x80", "\xc2", "\xff", "\x80", "\xe3\x80", "\u00e9", "\u4e16", "\r", "**", "~~", "x y", "\u200b", "\xf0\x9f"}
+	"\xe2", "\xe2\x80", "\xc2", "\xff", "\x80", "\xe3\x80", "\u00e9", "\u4e16", "\r", "**", "~~", "x y", "\u200b", "\xf0\x9f",
+	"\ufeff", "\xef\xbb", "\xef", "\xef\xbb\xbe", "\uff01", "\ufffd", "\u200c", "\u200d", "\u2060", "\ufeff> ", "\ufeff```"}
 
 func genDoc(rnd *common.Rand, maxSym int) []byte {
 	n := rnd.Intn(maxSym + 1)
@@ -644,6 +712,8 @@ var corpus = []string{
 	">> *>  a*\n", "\xe2", ">\xe2", "> \xe2\x80", "*\u2003a*\n", "*a\u2003*\n", "a\u2003*b*\n", "a\xe2\x80*b*\n", "",
 	"\n", "\n\n", ">", ">\n", "> \n> \n", "a\n> b\nc", "~a~~b~\n", "*a*\n*b\n", "> a\n```\n> b\n```\n", "```\n> a\n```\n",
 	"> a\n```info\nx\n", ">> a\nb\n", "``` `a`\n", "``` *a*", "```\n```\nx", "> ```\n> ```abc\n> x", "~a~~b~\n",
+	"\ufeff", "\ufeff> a\n", "\ufeff```\ncode\n```\n", "\ufeff*a*\n", "\ufeffa", "\xef\xbb", "\xef", "\xef\xbb> a", "\xef> a",
+	"\ufeff\ufeff> x", "a\ufeff> b\n", "> \ufeff> b\n", "\xef\xbb\xbe> a", "\uff01> a\n", "\u200b> a\n", "\u2060*a*\n", "\u200d```\n", "\n\ufeff> a\n",
 	">\u00a0x", ">\u3000\u3000", "> \xe3\x80", "*a _b *c* d_ e*\n", "_a *b* c_ *d*\n", "`a` `b`\n", "`*a*`*b*\n",
 }
 
@@ -820,6 +890,51 @@ func Run(r *common.Run) error {
 	}
 	r.Exhaustive = append(r.Exhaustive, fmt.Sprintf("all documents of length <= %d over %q x all cuts into reads x EOF with/after the last read (oracle on all, model tie on the reference and two schedules each)", maxLen, small))
 
+	// 2b. byte order mark and its neighbours: every document up to length L over the bytes of
+	// the BOM, a sibling byte, and the block starters, under every cut into reads; and every
+	// 1..3 byte prefix of the BOM, of sequences sharing a prefix with it and of zero-width
+	// characters, in front of every kind of first line, under every cut
+	bomAlpha := []byte{0xef, 0xbb, 0xbf, 0xbe, '>', ' ', '`', '\n', 'a'}
+	bomLen := r.Pick(4, 5)
+	allScheds := func(n int) []sched {
+		if n == 0 {
+			return []sched{{dataEOF: true}}
+		}
+		var out []sched
+		for _, sz := range compositions(n) {
+			out = append(out, sched{sizes: append(append([]int(nil), sz...), 1<<30)}, sched{sizes: append(append([]int(nil), sz...), 1<<30), dataEOF: true})
+		}
+		return out
+	}
+	for n := 1; n <= bomLen; n++ {
+		scheds := allScheds(n)
+		enumerate(bomAlpha, n, func(d []byte) {
+			if d[0] < 0x80 && !bytes.Contains(d, []byte{0xef}) {
+				return // covered by the directive alphabet
+			}
+			k := r.Rnd.Intn(len(scheds))
+			c.doc(d, append([]sched{scheds[k]}, scheds...), 1, "exhaustive-bom")
+			if n <= 3 {
+				c.splitDoc(d, scheds[k], 0)
+			}
+		})
+	}
+	heads := []string{"\xef\xbb\xbf", "\xef\xbb\xbe", "\xef\xbc\x81", "\xef\xbf\xbd", "\xe2\x80\x8b", "\xe2\x80\x8d", "\xe2\x81\xa0", "\xe2\x80\x83"}
+	tails := []string{"", ">", "> a\n", "```\n", "*a*\n", "\n", "a", ">> "}
+	for _, h := range heads {
+		for cut := 1; cut <= len(h); cut++ {
+			for _, t := range tails {
+				for _, pre := range []string{"", "\n"} {
+					d := []byte(pre + h[:cut] + t)
+					scheds := allScheds(len(d))
+					c.doc(d, append([]sched{scheds[len(scheds)-1], scheds[0]}, scheds...), 2, "bom-family")
+					c.splitDoc(d, sched{sizes: []int{1}}, 0)
+				}
+			}
+		}
+	}
+	r.Exhaustive = append(r.Exhaustive, fmt.Sprintf("all documents of length <= %d over % x containing EF x all cuts x EOF with/after; every 1..3 byte prefix of %d three-byte heads (BOM, siblings, zero-width) x %d first lines x all cuts", bomLen, bomAlpha, len(heads), len(tails)))
+
 	// 3. direct split-function call sequences (arbitrary windows, not only bufio's discipline)
 	rnd := r.Rnd
 	nHist := r.Pick(3000, 40000)
@@ -862,6 +977,10 @@ func Run(r *common.Run) error {
 	}
 	if c.hung {
 		r.Notes = append(r.Notes, "a decode hung; the run was cut short")
+	}
+	r.Extra["decoder_split_calls_judged"] = c.judged
+	if c.unhooked > 0 {
+		r.Notes = append(r.Notes, fmt.Sprintf("%d decodes: the Decoder's scanner could not be hooked (layout changed); its split calls were not judged, only the returned tokens", c.unhooked))
 	}
 	return nil
 }
